@@ -1,9 +1,10 @@
 """lintcontext — the shape of what C14's model rests on, read from the Rust sources:
  * struct LintContext (ignored_lints/lint_context.rs): derives Hash, its fields in order;
  * LintContext::from_lint: which of the known window expressions it uses for the prequel and the sequel
-   (0 = the code as pinned: span.with_len(2).pulled_by(2) / span.with_len(2).pushed_by(2);
-    1 = the repaired ones of fixes/F13.diff), the chaining order prequel, problem, sequel, and whether
-   twin_loc is blanked (fixes/F12.diff);
+   (0 = the code before 4550195: span.with_len(2).pulled_by(2) / span.with_len(2).pushed_by(2);
+    1 = Span::new(start.saturating_sub(2), start) / Span::new_with_len(end, 2)), the chaining order prequel,
+   problem, sequel, and what the closure does to each fat token: twin_loc blanked (8948350), word metadata
+   blanked (483b7cf) — any other statement in that closure is an unknown shape;
  * FatToken / Quote / Number: derive Hash, fields; the variants of TokenKind (the model's `tkind` must cover them);
  * IgnoredLints: the single serialised field (the JSON key).
 Raises when a shape is not one it knows."""
@@ -55,9 +56,20 @@ def generate(repo):
     if "letproblem_tokens=document.token_indices_intersecting(lint.span);" not in b1:
         raise RuntimeError("unknown problem window expression in from_lint")
     chain = "lettokens=prequel_tokens.into_iter().chain(problem_tokens).chain(sequel_tokens).flat_map(|idx|document.get_token(idx))" in b1
-    blank = bool(re.search(r"twin_loc=None", b1))
-    if not blank and ".map(|t|t.to_fat(document.get_source())).collect();" not in b1:
-        raise RuntimeError("unknown token mapping in from_lint")
+    blank = blank_meta = False
+    if ".map(|t|t.to_fat(document.get_source())).collect();" in b1:
+        pass
+    else:
+        mm = re.search(r"\.map\(\|t\|\{letmutfat=t\.to_fat\(document\.get_source\(\)\);(.*?)fat\}\)\.collect\(\);", b1)
+        if not mm:
+            raise RuntimeError("unknown token mapping in from_lint")
+        inner = mm.group(1)
+        s_twin = "ifletTokenKind::Punctuation(Punctuation::Quote(quote))=&mutfat.kind{quote.twin_loc=None;}"
+        s_meta = "ifletTokenKind::Word(metadata)=&mutfat.kind{*metadata=None;}"
+        blank = s_twin in inner
+        blank_meta = s_meta in inner
+        if inner.replace(s_twin, "", 1).replace(s_meta, "", 1) != "":
+            raise RuntimeError("unknown statement in the token mapping of from_lint: %r" % inner)
     built = one(re.search(r"Self\s*\{(.*?)\}", body[body.rfind("Self {") - 1:], re.S).group(1))
     ft_ds, ft_fields = struct(rd("harper-core/src/fat_token.rs"), "FatToken")
     q_ds, q_fields = struct(rd("harper-core/src/punctuation.rs"), "Quote")
@@ -77,11 +89,13 @@ def generate(repo):
            "Definition lc_derives_hash : bool := %s." % b("Hash" in ds),
            "(* from_lint: every field is moved into the context under its own name *)",
            "Definition lc_built_from_fields : bool := %s." % b(built.rstrip(",") == ",".join(fields)),
-           "(* window expressions: 0 = with_len(2).pulled_by(2) / with_len(2).pushed_by(2); 1 = fixes/F13.diff *)",
+           "(* window expressions: 0 = with_len(2).pulled_by(2) / with_len(2).pushed_by(2) (before 4550195); 1 = Span::new(start.saturating_sub(2), start) / Span::new_with_len(end, 2) *)",
            "Definition lc_prequel_variant : nat := %d." % prequel,
            "Definition lc_sequel_variant : nat := %d." % sequel,
            "Definition lc_chain_prequel_problem_sequel : bool := %s." % b(chain),
+           "(* the closure applied to each fat token: quote.twin_loc = None / *metadata = None of a word *)",
            "Definition lc_blanks_twin_loc : bool := %s." % b(blank),
+           "Definition lc_blanks_word_metadata : bool := %s." % b(blank_meta),
            "Definition fat_token_fields : list string := %s." % strs(ft_fields),
            "Definition fat_token_derives_hash : bool := %s." % b("Hash" in ft_ds),
            "Definition quote_fields : list string := %s." % strs(q_fields),
